@@ -11,7 +11,7 @@ PROPS = {
     "C02": dict(verus=["U-SM", "U-TS"], kani=[], bounded=["U-PARSE-B"], findings=[]),
     "C03": dict(verus=["U-SM", "U-TBSV"], kani=["U-TBS"], bounded=["U-PARSE-B"], findings=[]),
     "C04": dict(verus=["U-NTH", "U-DHS"], kani=["U-SEL", "U-STK"], bounded=["U-PARSE-B"], findings=[]),
-    "C05": dict(verus=["U-TS", "U-DHS", "U-TXT", "U-TBSV", "U-MEMV", "U-ENC", "U-HVECV", "U-SSINK"], kani=["U-HVEC", "U-STK"], bounded=[], findings=[]),
+    "C05": dict(verus=["U-TS", "U-DHS", "U-TXT", "U-TBSV", "U-MEMV", "U-ENC", "U-HVECV", "U-SSINK"], kani=["U-HVEC", "U-STK"], bounded=["U-PARSE-B"], findings=[]),
     "C06": dict(verus=["U-SM", "U-TS"], kani=[], bounded=["U-PARSE-B"], findings=[]),
     "C07": dict(verus=["U-TS", "U-SER"], kani=[], bounded=["U-PARSE-B"], findings=[]),
     "C08": dict(verus=["U-ESCQ"], kani=["U-ESC"], bounded=["U-PARSE-B"], findings=[]),
